@@ -31,6 +31,7 @@ func TestMain(m *testing.M) { stats.Main(m, "C12") }
 //	word:   "@" + identifier whose top level is not allowed     -> itself (e-mail addresses, mentions)
 //	ident:  "@" + allowed top-level name bound to a text value  -> the value
 //	lit:    "@(" + quote(S) + ")"                              -> S
+//	printed: "@(" + TextLiteral{S}.String() + ")"               -> S (the implementation's own literal printer)
 //	cat:    "@(" + quote(S) & quote(T) + ")"                   -> S+T
 //	fn:     "@(text(" + quote(S) + "))"                        -> S
 //	pick:   "@(if(true, " + quote(S) + ", " + quote(T) + "))"  -> S
@@ -63,6 +64,9 @@ func (s Seg) source() string {
 		return "@" + s.S
 	case "lit":
 		return "@(" + q(s.S) + ")"
+	case "printed":
+		// the literal as the implementation itself prints it (what template rewrites and migrations emit)
+		return "@(" + (&excellent.TextLiteral{Value: types.NewXText(s.S)}).String() + ")"
 	case "cat":
 		return "@(" + q(s.S) + " & " + q(s.T) + ")"
 	case "fn":
@@ -78,7 +82,7 @@ func (s Seg) source() string {
 func (s Seg) exprBody() (string, bool) {
 	src := s.source()
 	switch s.Kind {
-	case "lit", "cat", "fn", "pick", "idx":
+	case "lit", "cat", "fn", "pick", "idx", "printed":
 		return src[2 : len(src)-1], true
 	}
 	return "", false
@@ -94,7 +98,7 @@ func (s Seg) expected(allowed map[string]string) string {
 		return "@" + s.S
 	case "ident":
 		return allowed[strings.ToLower(s.S)]
-	case "lit", "fn", "pick":
+	case "lit", "fn", "pick", "printed":
 		return s.S
 	case "cat":
 		return s.S + s.T
@@ -286,8 +290,10 @@ func drawCase(t *rapid.T) Case {
 			}
 			segs = append(segs, Seg{Kind: "ident", S: name})
 			needSep = true
-		case 6, 7, 8:
+		case 6, 7:
 			segs = append(segs, Seg{Kind: "lit", S: gen.Text(t, "s")})
+		case 8:
+			segs = append(segs, Seg{Kind: "printed", S: gen.Text(t, "s")})
 		case 9, 10:
 			segs = append(segs, Seg{Kind: "cat", S: gen.Text(t, "s"), T: gen.Text(t, "t")})
 		case 11:
